@@ -7,6 +7,7 @@ CONTRACTS = os.path.join(VERIF, "contracts")
 SCRATCH_ROOT = os.environ.get("VERIF_SCRATCH", "/tmp/tfverif")
 RSS_CAP_KB = int(os.environ.get("VERIF_RSS_CAP_GB", "24")) * 1024 * 1024
 JOBS = int(os.environ.get("VERIF_JOBS", "12"))
+TAG = os.environ.get("VERIF_TAG", "")   # set for experiments on scratch copies of the repository: separate logs/replays, no evidence
 
 GLOBAL_ASSUMPTIONS = [
     "A1 Kani's MIR->GOTO translation, CBMC 6.11 and its SAT back end (cadical) are sound; likewise Verus/Z3 where used",
@@ -708,7 +709,7 @@ def check_property(prop, tier, repo, only=None, keep=False, do_replay=True, writ
     t0 = time.time()
     seed = int(os.environ.get("VERIF_SEED", "0") or 0)
     overlays, meta = load_property(prop)
-    logdir = os.path.join(CACHE, "logs", f"{prop}-{tier}")
+    logdir = os.path.join(CACHE, "logs", f"{prop}-{tier}{TAG}")
     shutil.rmtree(logdir, ignore_errors=True)
     os.makedirs(logdir)
     harnesses = [h for o in overlays for h in o.harnesses if (tier == "thorough" or h.tier == "quick")]
@@ -724,7 +725,7 @@ def check_property(prop, tier, repo, only=None, keep=False, do_replay=True, writ
     results, anchors, verus = {}, [], []
     root = None
     try:
-        root, ws, anchors = make_scratch(repo, prop, overlays, "-" + tier)
+        root, ws, anchors = make_scratch(repo, prop, overlays, "-" + tier + TAG)
         if meta.get("pre"):  # python hooks: static source scans (anchor drift etc.)
             import importlib
             mod = importlib.import_module(meta["pre"])
@@ -804,7 +805,7 @@ def check_property(prop, tier, repo, only=None, keep=False, do_replay=True, writ
         log(f"  refuted obligation in {name}: {r.get('reason')}")
     for name, why in undecided:
         log(f"UNDECIDED {prop}/{name}: {why}")
-    if write_evidence and not only:
+    if write_evidence and not only and not TAG:
         write_evidence_file(prop, tier, seed, harnesses, results, verus, anchors, meta, violations, known, undecided, wall, grids)
     npass = sum(1 for h in harnesses if results.get(h.name, {}).get("verdict") == "discharged")
     log(f"[{prop}/{tier}] peak cbmc RSS {PEAK_RSS.get('kb', 0) / 1048576:.1f} GB")
@@ -819,7 +820,7 @@ def check_property(prop, tier, repo, only=None, keep=False, do_replay=True, writ
 
 
 def write_replay_file(prop, name, payload):
-    d = os.path.join(VERIF, "replays", prop)
+    d = os.path.join(VERIF, "replays", prop) if not TAG else os.path.join(CACHE, "replays" + TAG, prop)
     os.makedirs(d, exist_ok=True)
     p = os.path.join(d, name + ".json")
     json.dump(payload, open(p, "w"), indent=1)
